@@ -50,6 +50,14 @@ class PermutedScheduler:
         fn = {"lpsd": S.lpsd_plan, "ltf": S.ltf_plan, "vectorized_ltf": S.vectorized_ltf_plan, "new_ltf": S.new_ltf_plan}[base]
         p = dict(fn(**args))
         n = len(p["f"])
+        if mode == "dup":
+            # same bins, ascending, but every third bin lists one of its starts twice (K and navg count it): plan() accepts such plans
+            D = [np.asarray(d_) for d_ in p["D"]]
+            K = np.asarray(p["K"]).copy(); nav = np.asarray(p["navg"]).copy()
+            for i in range(0, n, 3):
+                D[i] = np.concatenate([D[i], D[i][-1:]]); K[i] += 1; nav[i] += 1
+            p["D"] = D; p["K"] = K; p["navg"] = nav
+            return p
         idx = list(range(n))[::-1] if mode == "rev" else (list(range(n // 3, n)) + list(range(n // 3)))
         for k in ("f", "r", "b", "L", "K", "navg", "O"):
             p[k] = np.asarray(p[k])[idx].copy()
@@ -59,6 +67,16 @@ class PermutedScheduler:
 
 def _permuted_scheduler(name):
     return PermutedScheduler(name)
+
+
+def user_window(kw, L):
+    """The window a user-supplied (non-Kaiser) callable defines for length L — evaluated by calling it the way a user would, w = win(L)."""
+    w = kw.get("win")
+    if isinstance(w, str) and w in ("cal:sp_hann", "cal:sp_blackman", "cal:np_hanning"):
+        from scipy.signal import windows as _spw
+        fn = {"cal:sp_hann": _spw.hann, "cal:sp_blackman": _spw.blackman, "cal:np_hanning": np.hanning}[w]
+        return np.asarray(fn(L), float)
+    return None
 
 
 def resolve_kw(kw):
@@ -74,6 +92,9 @@ def resolve_kw(kw):
             kw["win"] = _spk
         elif kw["win"] == "cal:np_hanning":
             kw["win"] = np.hanning
+        elif kw["win"] in ("cal:sp_hann", "cal:sp_blackman"):
+            from scipy.signal import windows as _spw
+            kw["win"] = {"cal:sp_hann": _spw.hann, "cal:sp_blackman": _spw.blackman}[kw["win"]]
     return kw
 
 
@@ -81,7 +102,7 @@ def plan_order_check(r, info):
     """Per-bin statistics do not depend on where the bin is listed in the plan: compare with the built-in (ascending) plan."""
     from speckit.analysis import SpectrumAnalyzer
     sch = info["kw"].get("scheduler")
-    if not (isinstance(sch, str) and ":" in sch) or info["which"] != "full":
+    if not (isinstance(sch, str) and ":" in sch) or info["which"] != "full" or sch.startswith("dup:"):
         return []
     kw0 = dict(info["kw"]); kw0["scheduler"] = sch.split(":")[1]
     data = np.vstack([info["x"], info["y"]]) if info["cross"] else info["x"]
@@ -116,13 +137,13 @@ def make_result(rng, cross=None, which=None, kind=None, backend="numba", layout=
               olap=rng.choice(["default", 0.5, 0.0]), bmin=rng.choice([1.0, 2.0]), Lmin=rng.choice([1, 16]))
     if rng.random() < 0.2:
         # the window passed as the library function itself instead of by name (a documented way of selecting it)
-        kw["win"] = {"kaiser": rng.choice(["cal:np_kaiser", "cal:sp_kaiser"]), "hann": "cal:np_hanning"}[win]
+        kw["win"] = {"kaiser": rng.choice(["cal:np_kaiser", "cal:sp_kaiser"]), "hann": rng.choice(["cal:np_hanning", "cal:sp_hann", "cal:sp_blackman"])}[win]
     if which == "equalK":
         # every bin has one segment: Lmin = N
         kw.update(Lmin=N, scheduler=rng.choice(["ltf", "vectorized_ltf"]))
     elif which == "full" and rng.random() < 0.25:
         # a user-supplied scheduler callable listing the same bins in another order (single-segment bins no longer first)
-        kw["scheduler"] = rng.choice(["rev:", "rot:"]) + rng.choice(["lpsd", "ltf", "vectorized_ltf"])
+        kw["scheduler"] = rng.choice(["rev:", "rot:", "dup:"]) + rng.choice(["lpsd", "ltf", "vectorized_ltf"])
         if kw["scheduler"].endswith(":lpsd"):
             kw["Lmin"] = 1      # lpsd ignores Lmin; the analyzer validates a user callable's L against it
     data = np.vstack([x, y]) if cross else x
